@@ -39,8 +39,10 @@ class EngineBase:
     # ------------------------------------------------------------------ obligations
     def oblige(self, st: State, kind: str, name: str, goal, anchor: str = "", expect="unsat", extra_hyps=()):
         oid = f"{self.fi.qual}#{kind}:{name}" + (f"@{anchor}" if anchor else "")
-        self.obls.append(Obl(oid, kind, list(self.axioms) + list(st.pc) + list(extra_hyps), goal, anchor, expect,
-                             st.label(), tuple(sorted(st.uses))))
+        wanted = set(getattr(self.spec, "uses_invariants", ()) or ())
+        lazy = [f for (n, f) in st.lazy if n == name or name.endswith(n) or n in wanted]
+        self.obls.append(Obl(oid, kind, list(st.pc) + lazy + list(extra_hyps), goal, anchor, expect,
+                             st.label(), tuple(sorted(st.uses)), tuple(st.heavy)))
 
     def drop(self, rule):
         self.dropped[rule] = self.dropped.get(rule, 0) + 1
@@ -238,6 +240,8 @@ class EngineBase:
 
     def global_value(self, n: str, st: State) -> SV:
         r = self.world.resolve_global(self.module, n)
+        if n in EXC_BASES and (r is None or r[0] == "ext"):
+            return SV(con(n), Ty("class", (), n))
         if r is None:
             if n in ("True", "False", "None"):
                 raise Untranslatable(n)
